@@ -15,26 +15,27 @@ Definition t_case_cast_end : text := [99;97;115;101;58;58;101;110;100]%N.
 (* "(as)" *)
 Definition t_paren_as : text := [40;97;115;41]%N.
 
-(* aligned_total_refuted: format(t, reindent_aligned=True) raises
-   - ValueError ("None is not in list", aligned_indent.py:83 -> TokenList.token_index) when the END of
-     a Case is not a direct child of the Case group: a later grouping pass (group_where,
-     group_identifier_list, group_typecasts, group_as ...) has moved it into a sub-group, so
-     token_next_by(m=(Keyword,'END')) is None and insert_before(None, ...) looks None up;
-   - IndexError in StripWhitespaceFilter._stripws_parenthesis (the same defect as
-     reindent_total_refuted).
-   The real library agrees on all four inputs. *)
-Theorem aligned_total_refuted :
-  cur_aligned t_case_where_end = Err ValueError /\
-  cur_aligned t_case_comma_end = Err ValueError /\
-  cur_aligned t_case_cast_end = Err ValueError /\
-  cur_aligned t_paren_as = Err IndexError.
+(* Until the fixes of findings C07-AL-1 and C07-RX-1 these four inputs were the refutation of totality
+   (aligned_total_refuted): format(t, reindent_aligned=True) raised
+   - ValueError ("None is not in list", aligned_indent.py -> TokenList.token_index) when the END of a Case is not a
+     direct child of the Case group: a later grouping pass (group_where, group_identifier_list, group_typecasts,
+     group_as ...) has moved it into a sub-group, so token_next_by(m=(Keyword,'END')) is None and
+     insert_before(None, ...) looked None up;
+   - IndexError in StripWhitespaceFilter._stripws_parenthesis on `(as)`.
+   AlignedIndentFilter._process_case now aligns the END only when it has one, and _stripws_parenthesis leaves a
+   Parenthesis with fewer than two tokens to the default rule.  The real library agrees on all four inputs. *)
+Theorem aligned_case_end_fixed :
+  cur_aligned t_case_where_end = Ok [99;97;115;101;32;119;104;101;114;101;32;101;110;100]%N /\
+  cur_aligned t_case_comma_end = Ok t_case_comma_end /\
+  cur_aligned t_case_cast_end = Ok t_case_cast_end /\
+  cur_aligned t_paren_as = Ok t_paren_as.
 Proof.
   split; [vm_compute; reflexivity|]. split; [vm_compute; reflexivity|].
   split; vm_compute; reflexivity.
 Qed.
-Print Assumptions aligned_total_refuted.
+Print Assumptions aligned_case_end_fixed.
 
-(* the trees that crash: the END keyword sits inside the Where / IdentifierList / Identifier *)
+(* the trees that used to crash: the END keyword sits inside the Where / IdentifierList / Identifier *)
 Example case_where_end_tree :
   cur_parse t_case_where_end =
   Ok [Grp CStatement t_case_where_end
@@ -52,10 +53,10 @@ Example case_comma_end_tree :
               [Leaf T_Keyword [99;97;115;101]%N; Leaf T_Punctuation [44%N]; Leaf T_Keyword [101;110;100]%N]]]].
 Proof. vm_compute. reflexivity. Qed.
 
-(* ... and al_safe is false on exactly these (the stripws'd statements), true on a plain CASE *)
+(* ... and al_safe, which was false on exactly these (the stripws'd statements), holds *)
 Example alsafe_witnesses :
-  cur_alsafe t_case_where_end = Ok [false] /\ cur_alsafe t_case_comma_end = Ok [false] /\
-  cur_alsafe t_case_cast_end = Ok [false].
+  cur_alsafe t_case_where_end = Ok [true] /\ cur_alsafe t_case_comma_end = Ok [true] /\
+  cur_alsafe t_case_cast_end = Ok [true].
 Proof. split; [vm_compute; reflexivity|]. split; vm_compute; reflexivity. Qed.
 
 (* "select a, case when x then 1 else 2 end from t where b between 1 and 2 and c in (select d from u)" *)
